@@ -84,13 +84,13 @@ def initial_pool():
     m.append(("s_empty", Scalar.CreateEmptyScalar(3.0)))
     m.append(("s_unknown", Scalar(GetUnknownQuantity("cap"), 4.0)))
     m.append(("s_degC", Scalar(25.0, "degC", "temperature")))
-    m.append(("a_list", Array(own("list of a_list", [1.0, 2.0, 3.0]), "m", "length")))
+    m.append(("a_list", Array(own("list of a_list", [1.0, 2.0, 3.0]), "cm", "length")))  # another unit than a_nd: products with results of a_nd need a conversion
     m.append(("a_tuple", Array(own("tuple of a_tuple", (4.0, 5.0, 6.0)), "cm", "depth")))
     m.append(("a_nd", Array(own("ndarray of a_nd", np.array([1.5, 2.5, 3.5])), "m", "length")))
     m.append(("a_lot", Array(own("list of tuples of a_lot", [(1.0, 2.0), (3.0, 4.0)]), "m", "length")))
     m.append(("a_derived", Array(own("list of a_derived(m)", [2.0, 4.0, 6.0]), "m", "length") / Array(own("list of a_derived(s)", [1.0, 2.0, 4.0]), "s", "time")))
     m.append(("a_len2", Array(own("list of a_len2", [7.0, 8.0]), "km", "length")))
-    m.append(("f_list", FixedArray(3, own("list of f_list", [1.0, 2.0, 3.0]), "m")))
+    m.append(("f_list", FixedArray(3, own("list of f_list", [1.0, 2.0, 3.0]), "cm")))
     m.append(("f_tuple", FixedArray(3, "depth", own("tuple of f_tuple", (1.0, 2.0, 3.0)), "cm")))
     m.append(("f_nd", FixedArray(3, own("ndarray of f_nd", np.array([0.5, 1.5, 2.5])), "m")))
     m.append(("fs_frac", FractionScalar("length", own("FractionValue of fs_frac", FractionValue(5, own("Fraction of fs_frac", Fraction(1, 2)))), "in")))
